@@ -387,6 +387,8 @@ type snapshot struct {
 
 func snap(recv geom.T) snapshot {
 	s := snapshot{n: numParts(recv)}
+	// everything a value reports about itself: layout, stride and SRID too
+	s.desc = fmt.Sprintf("%v/%d/srid %d;", recv.Layout(), recv.Stride(), recv.SRID())
 	if gc, ok := recv.(*geom.GeometryCollection); ok {
 		for i := 0; i < gc.NumGeoms(); i++ {
 			s.desc += fmt.Sprintf("%p;", gc.Geom(i))
@@ -791,6 +793,7 @@ func prop(c Case) error {
 			if err != nil {
 				return err
 			}
+			_, _ = geom.SetSRID(p, 4326+i) // a refused part leaves nothing of itself behind, not its SRID either
 			before := snap(recv)
 			err = push(recv, p)
 			var lm geom.ErrLayoutMismatch
@@ -812,6 +815,9 @@ func prop(c Case) error {
 				p, err := model.Build(&op.Parts[j], model.RouteFlat)
 				if err != nil {
 					return err
+				}
+				if op.Bad >= 0 { // (the whole call is refused: nothing of its arguments is left behind)
+					_, _ = geom.SetSRID(p, 3000+10*i+j)
 				}
 				ps = append(ps, p)
 			}
